@@ -271,6 +271,11 @@ func (e *Engine) installIntrinsics() {
 		}
 		return nil
 	}
+	// vfSchedBound(n): preemption bound for goroutines started on this path
+	in[hp+"vfSchedBound"] = func(m *machine, _ *frame, _ *ssa.Function, args []value) value {
+		m.ts().maxPreempt = m.concInt(args[0], "vfSchedBound n")
+		return nil
+	}
 	// vfUseReal(callee): execute the real callee (from SSA) instead of its model on this path;
 	// vfUseRealPkg(path): execute a normally non-executed package from its SSA
 	in[hp+"vfUseReal"] = func(m *machine, _ *frame, _ *ssa.Function, args []value) value {
@@ -571,6 +576,41 @@ func (e *Engine) installIntrinsics() {
 			ev = m.rtErr(err.Error())
 		}
 		return tuple{strV{s: h}, strV{s: p}, ev}
+	}
+	in["net.JoinHostPort"] = func(m *machine, _ *frame, fn *ssa.Function, args []value) value {
+		h, p := args[0].(strV), args[1].(strV)
+		if !h.IsConcrete() || !p.IsConcrete() {
+			m.unsupported("net.JoinHostPort on a symbolic string at %s", m.where())
+		}
+		return strV{s: net.JoinHostPort(h.s, p.s)}
+	}
+	in["net.ParseIP"] = func(m *machine, _ *frame, fn *ssa.Function, args []value) value {
+		s := args[0].(strV)
+		if !s.IsConcrete() {
+			m.unsupported("net.ParseIP on a symbolic string at %s", m.where())
+		}
+		ip := net.ParseIP(s.s)
+		if ip == nil {
+			return []value(nil)
+		}
+		out := make([]value, len(ip))
+		for i, b := range ip {
+			out[i] = m.ctx.BV(uint64(b), 8)
+		}
+		m.registerArray(out, nil)
+		return out
+	}
+	in["strconv.Atoi"] = func(m *machine, _ *frame, fn *ssa.Function, args []value) value {
+		s := args[0].(strV)
+		if !s.IsConcrete() {
+			m.unsupported("strconv.Atoi on a symbolic string at %s", m.where())
+		}
+		n, err := strconv.Atoi(s.s)
+		var ev value = iface{}
+		if err != nil {
+			ev = m.rtErr(err.Error())
+		}
+		return tuple{m.ctx.BV(uint64(int64(n)), 64), ev}
 	}
 	in["os.Getenv"] = func(m *machine, _ *frame, fn *ssa.Function, args []value) value {
 		return strV{}
